@@ -127,10 +127,10 @@ func ParseSpec(src string) (n *SNode, err error) {
 type specErr string
 
 func (p *sparser) fail(f string, a ...interface{}) { panic(specErr(fmt.Sprintf(f, a...))) }
-func (p *sparser) peek() tok                        { return p.toks[p.p] }
-func (p *sparser) next() tok                        { t := p.toks[p.p]; p.p++; return t }
-func (p *sparser) isOp(s string) bool               { t := p.peek(); return t.k == "op" && t.s == s }
-func (p *sparser) isID(s string) bool               { t := p.peek(); return t.k == "id" && t.s == s }
+func (p *sparser) peek() tok                       { return p.toks[p.p] }
+func (p *sparser) next() tok                       { t := p.toks[p.p]; p.p++; return t }
+func (p *sparser) isOp(s string) bool              { t := p.peek(); return t.k == "op" && t.s == s }
+func (p *sparser) isID(s string) bool              { t := p.peek(); return t.k == "id" && t.s == s }
 func (p *sparser) expect(s string) {
 	if !p.isOp(s) {
 		p.fail("expected %q got %q", s, p.peek().s)
